@@ -60,7 +60,7 @@ def work(tasks, idx):
         if fmt in attest.CHAIN_FORMATS and fmt != "fido-u2f":
             kw["n_intermediates"] = variant % 3
         cred_id = bytes((variant + i) % 256 for i in range(idlen))
-        b = _reg.build(fmt, choice, (), cred_id=cred_id, **kw)
+        b = _reg.build(fmt, choice, (), cred_id=cred_id, aaguid=bytes((variant * 13 + 7 * i + 1) % 256 for i in range(16)), **kw)
         if b is None:
             continue
         req, r = b
